@@ -9,11 +9,34 @@ use serde_json::{json, Map, Value};
 
 pub const GROUP: &str = "g";
 
+pub const SVC_NS: &str = "";
+pub const TOOL_NS: &str = "tns";
+pub const TOOL_GROUP: &str = "tg";
+
+fn opt_str(v: &Value) -> Value {
+    match v.as_str() {
+        Some("") | None => Value::Null,
+        Some(s) => json!(s),
+    }
+}
+
+/// a model instance key "svc:ip:port"
+fn inst_parts(k: &str) -> (String, String, u32) {
+    let p: Vec<&str> = k.split(':').collect();
+    (p[0].to_string(), p.get(1).unwrap_or(&"10.0.0.1").to_string(), p.get(2).and_then(|x| x.parse().ok()).unwrap_or(80))
+}
+
+fn simple_tool(k: &str, ver: u64) -> Value {
+    json!({"toolName": k, "toolKey": {"namespace": TOOL_NS, "group": TOOL_GROUP, "toolName": k}, "toolVersion": ver,
+        "routeRule": {"protocol": "http", "url": "http://x/y", "method": "GET", "additionHeaders": {}, "convertType": "NONE",
+            "serviceGroup": "", "serviceName": ""}})
+}
+
 /// model request -> real ClientRequest (JSON, serde's externally tagged form)
 pub fn to_client_request(r: &Value, index: u64) -> Value {
     let k = r["k"].as_str().unwrap_or("");
     match r["t"].as_str().unwrap_or("") {
-        "cfg_set" => json!({"ConfigSet": {"key": format!("{}\u{2}{}", k, GROUP), "value": r["v"], "config_type": null, "desc": null,
+        "cfg_set" => json!({"ConfigSet": {"key": format!("{}\u{2}{}", k, GROUP), "value": r["v"], "config_type": opt_str(&r["ty"]), "desc": opt_str(&r["ds"]),
             "history_id": r["hid"], "history_table_id": r["hid"], "op_time": 1000 + index, "op_user": null}}),
         "cfg_del" => json!({"ConfigRemove": {"key": format!("{}\u{2}{}", k, GROUP)}}),
         "ns_set" => json!({"NamespaceReq": {"Set": {"namespace_id": k, "namespace_name": r["v"], "type": null}}}),
@@ -24,8 +47,49 @@ pub fn to_client_request(r: &Value, index: u64) -> Value {
         "seq_range" => json!({"SequenceReq": {"req": {"NextRange": [k, r["n"]]}}}),
         "seq_set" => json!({"SequenceReq": {"req": {"SetId": [k, r["n"]]}}}),
         "seq_del" => json!({"SequenceReq": {"req": {"RemoveId": k}}}),
+        "nam_set" => {
+            let (svc, ip, port) = inst_parts(k);
+            let param = json!({"ip": ip, "port": port, "weight": r["w"].as_f64().unwrap_or(1.0), "enabled": r["en"].as_bool().unwrap_or(true),
+                "healthy": true, "ephemeral": false, "metadata": {"m": format!("w{}", r["w"])}, "namespace_id": SVC_NS, "group_name": "DEFAULT_GROUP",
+                "service_name": svc, "cluster_name": "DEFAULT", "app_name": null, "last_modified_millis": 1000 + index});
+            if r["upd"].as_bool().unwrap_or(false) {
+                json!({"NamingReq": {"req": {"UpdateInstance": {"param": param}}}})
+            } else {
+                json!({"NamingReq": {"req": {"RegisterInstance": {"param": param}}}})
+            }
+        }
+        "nam_del" => {
+            let (svc, ip, port) = inst_parts(k);
+            json!({"NamingReq": {"req": {"RemoveInstance": {"namespaceId": SVC_NS, "groupName": "DEFAULT_GROUP", "serviceName": svc, "ip": ip, "port": port}}}})
+        }
+        "cch_set" => json!({"CacheReq": {"req": {"Set": {"key": {"cache_type": "String", "key": k}, "value": {"String": r["v"]}, "ttl": -1, "now": 0,
+            "nx": r["m"] == "nx", "xx": r["m"] == "xx"}}}}),
+        "cch_del" => json!({"CacheReq": {"req": {"Remove": {"cache_type": "String", "key": k}}}}),
+        "tool_set" => json!({"McpReq": {"req": {"UpdateToolSpec": {"namespace": TOOL_NS, "group": TOOL_GROUP, "toolName": k,
+            "parameters": {"name": k, "description": r["v"], "inputSchema": {"type": "object", "properties": {}}},
+            "version": r["hid"], "updateTime": 1000 + index, "opUser": null}}}}),
+        "tool_del" => json!({"McpReq": {"req": {"RemoveToolSpec": {"namespace": TOOL_NS, "group": TOOL_GROUP, "toolName": k}}}}),
+        t @ ("srv_set" | "srv_add") => {
+            let id = srv_id(r);
+            let tools: Vec<Value> = r["tools"].as_array().cloned().unwrap_or_default().iter().map(|x| simple_tool(x["k"].as_str().unwrap_or(""), x["ver"].as_u64().unwrap_or(0))).collect();
+            let param = json!({"id": id, "uniqueKey": format!("srv{}", id), "valueId": r["hid"], "tools": tools, "opUser": "u", "updateTime": 1000 + index,
+                "namespace": TOOL_NS, "name": r["v"], "description": "d", "token": null, "authKeys": ["key"],
+                "publishValueId": if t == "srv_add" { json!(r["hid"].as_u64().unwrap_or(0) + 1) } else { Value::Null }});
+            if t == "srv_add" {
+                json!({"McpReq": {"req": {"AddServer": param}}})
+            } else {
+                json!({"McpReq": {"req": {"UpdateServer": param}}})
+            }
+        }
+        "srv_pub" => json!({"McpReq": {"req": {"PublishCurrentServer": [srv_id(r), r["hid"]]}}}),
+        "srv_pubhist" => json!({"McpReq": {"req": {"PublishHistoryServer": [srv_id(r), r["hid"]]}}}),
+        "srv_del" => json!({"McpReq": {"req": {"RemoveServer": srv_id(r)}}}),
         _ => Value::Null,
     }
+}
+
+fn srv_id(r: &Value) -> u64 {
+    r["k"].as_str().and_then(|x| x.parse().ok()).or(r["k"].as_u64()).unwrap_or(1)
 }
 
 fn as_map(v: &Value) -> Map<String, Value> {
@@ -40,7 +104,7 @@ pub fn project(dump: &Value) -> Value {
         let parts: Vec<&str> = k.splitn(3, '|').collect();
         let name = if parts.len() == 3 && parts[0].is_empty() && parts[1] == GROUP { parts[2].to_string() } else { k.clone() };
         let hist: Vec<Value> = v["hist"].as_array().cloned().unwrap_or_default().iter().map(|h| json!({"id": h["id"], "content": h["content"]})).collect();
-        cfg.insert(name, json!({"content": v["content"], "hist": hist}));
+        cfg.insert(name, json!({"content": v["content"], "ty": v["type"].as_str().unwrap_or(""), "desc": v["desc"].as_str().unwrap_or(""), "hist": hist}));
     }
     let mut ns = Map::new();
     for (k, v) in as_map(&dump["ns"]) {
@@ -51,11 +115,61 @@ pub fn project(dump: &Value) -> Value {
     }
     let usr = as_map(&dump["tables"]["T_USER"]);
     let seq = as_map(&dump["seq"]);
-    json!({"cfg": cfg, "ns": ns, "usr": usr, "seq": seq})
+    // persistent instances: "ns|group|svc|ip:port" -> model key "svc:ip:port"
+    let mut nam = Map::new();
+    for (k, v) in as_map(&dump["nam"]) {
+        let p: Vec<&str> = k.splitn(4, '|').collect();
+        let name = if p.len() == 4 { format!("{}:{}", p[2], p[3]) } else { k.clone() };
+        let w = v["weight"].as_f64().unwrap_or(0.0);
+        nam.insert(name, json!({"w": w as i64, "en": v["enabled"]}));
+    }
+    let mut cch = Map::new();
+    for (k, v) in as_map(&dump["cch"]) {
+        cch.insert(k, v["value"]["String"].clone());
+    }
+    let mut tool = Map::new();
+    for (k, v) in as_map(&dump["tool"]) {
+        let name = k.rsplit('|').next().unwrap_or("").to_string();
+        tool.insert(name, json!({"cur": v["cur"], "vers": v["vers"]}));
+    }
+    let mut srv = Map::new();
+    for (k, v) in as_map(&dump["srv"]) {
+        srv.insert(k, json!({"name": v["name"], "cur": v["cur"], "rel": v["rel"], "hist": v["hist"]}));
+    }
+    json!({"cfg": cfg, "ns": ns, "usr": usr, "seq": seq, "nam": nam, "cch": cch, "tool": tool, "srv": srv})
+}
+
+fn norm_value(v: &Value) -> Value {
+    let mut ts: Vec<Value> = v["tools"].as_array().cloned().unwrap_or_default();
+    ts.sort_by_key(|t| t["k"].as_str().unwrap_or("").to_string());
+    json!({"vid": v["vid"], "tools": ts})
 }
 
 pub fn norm_model(sm: &Value) -> Value {
-    json!({"cfg": as_map(&sm["cfg"]), "ns": as_map(&sm["ns"]), "usr": as_map(&sm["usr"]), "seq": as_map(&sm["seq"])})
+    // TLC prints a function over numbers 1..n as an array and other number-keyed functions as objects with string keys
+    let mut tool = Map::new();
+    for (k, v) in as_map(&sm["tool"]) {
+        let vers = match &v["vers"] {
+            Value::Array(a) => a.iter().enumerate().map(|(i, x)| ((i + 1).to_string(), x.clone())).collect::<Map<String, Value>>(),
+            other => as_map(other),
+        };
+        tool.insert(k, json!({"cur": v["cur"], "vers": vers}));
+    }
+    let mut srv = Map::new();
+    let srv_in = match &sm["srv"] {
+        Value::Array(a) => a.iter().enumerate().map(|(i, x)| ((i + 1).to_string(), x.clone())).collect::<Map<String, Value>>(),
+        other => as_map(other),
+    };
+    for (k, v) in srv_in {
+        let hist: Vec<Value> = v["hist"].as_array().cloned().unwrap_or_default().iter().map(norm_value).collect();
+        srv.insert(k, json!({"name": v["name"], "cur": norm_value(&v["cur"]), "rel": norm_value(&v["rel"]), "hist": hist}));
+    }
+    let mut cfg = Map::new();
+    for (k, v) in as_map(&sm["cfg"]) {
+        cfg.insert(k, json!({"content": v["content"], "ty": v["ty"].as_str().unwrap_or(""), "desc": v["desc"].as_str().unwrap_or(""), "hist": v["hist"]}));
+    }
+    json!({"cfg": cfg, "ns": as_map(&sm["ns"]), "usr": as_map(&sm["usr"]), "seq": as_map(&sm["seq"]),
+        "nam": as_map(&sm["nam"]), "cch": as_map(&sm["cch"]), "tool": tool, "srv": srv})
 }
 
 pub fn get_dump(node: &mut NodeProc) -> anyhow::Result<Value> {
@@ -67,7 +181,7 @@ pub fn get_dump(node: &mut NodeProc) -> anyhow::Result<Value> {
 }
 
 pub fn first_diff(a: &Value, b: &Value) -> String {
-    for part in ["cfg", "ns", "usr", "seq", "tables", "listing_total"] {
+    for part in ["cfg", "ns", "usr", "seq", "tables", "listing_total", "nam", "cch", "tool", "tool_total", "srv", "srv_total"] {
         if a.get(part) != b.get(part) {
             return format!("{}: {} vs {}", part, a.get(part).unwrap_or(&Value::Null), b.get(part).unwrap_or(&Value::Null));
         }
@@ -82,7 +196,11 @@ pub fn log_and_apply(node: &mut NodeProc, index: u64, req: &Value) -> anyhow::Re
     }
     let r = node.call(&json!({"op":"apply","index":index,"req":req}))?;
     if r["res"] != "ok" {
-        return Ok(Some(r));
+        // a refusal by the component (RemoveToolSpec of a tool in use ...) is an outcome: the state comparison judges it
+        let refusal = req.get("McpReq").is_some() && r["err"].as_str().map(|e| !e.contains("close-write")).unwrap_or(false);
+        if !refusal {
+            return Ok(Some(r));
+        }
     }
     Ok(None)
 }
@@ -254,6 +372,34 @@ fn run_c07(i: usize, b: &Value) -> anyhow::Result<Value> {
     n2.kill();
     let (dump_fe, _d3, n3) = follower_path_echo(&reqs, &groups, true)?;
     n3.kill();
+    // path S: a node that applied a prefix, compacted, restarted from the snapshot and applied the rest
+    if reqs.len() >= 2 {
+        let cut = (reqs.len() + 1) / 2;
+        let dir_s = tempfile::tempdir()?;
+        let ds = dir_s.path().to_string_lossy().into_owned();
+        let mut n = NodeProc::start(&ds, 700)?;
+        for (j, r) in reqs.iter().enumerate() {
+            let idx = j as u64 + 1;
+            if let Some(e) = log_and_apply(&mut n, idx, &to_client_request(r, idx))? {
+                n.kill();
+                return Ok(mismatch(i, j, "apply failed on the snapshot path", json!("ok"), e));
+            }
+            if j + 1 == cut {
+                let r = n.call(&json!({"op":"compact"}))?;
+                if r["res"] != "ok" {
+                    n.kill();
+                    return Ok(mismatch(i, j, "compaction failed on the snapshot path", json!("ok"), r));
+                }
+                n.stop()?;
+                n = NodeProc::start(&ds, 700)?;
+            }
+        }
+        let dump_s = get_dump(&mut n)?;
+        n.kill();
+        if dump_l != dump_s {
+            return Ok(mismatch(i, 0, "leader path and the path of a node restarted from a snapshot midway differ", json!(first_diff(&dump_l, &dump_s)), json!({"compacted_and_restarted_after": cut})));
+        }
+    }
     if dump_l != dump_fe {
         return Ok(mismatch(i, 0, "leader path and the path of a follower that routed and echoed the publishes differ", json!(first_diff(&dump_l, &dump_fe)), json!({"groups":groups})));
     }
@@ -315,10 +461,23 @@ fn random_model_request(rng: &mut rand::rngs::StdRng, hid: &mut u64) -> Value {
     let uk = ["u1", "u2", "u3"];
     let uv = ["p", "q", "r"];
     let sk = ["s1", "s2", "s3"];
+    let ik = ["s1:10.0.0.1:80", "s1:10.0.0.2:80", "s2:10.0.0.1:81", "s3:10.0.0.9:8080"];
+    let cak = ["c1", "c2", "c3"];
+    let tys = ["", "", "json", "yaml", "text"];
+    let dss = ["", "", "d1", "描述"];
+    let modes = ["", "", "nx", "xx"];
+    if rng.gen_range(0..100) < 22 {
+        return match rng.gen_range(0..100) {
+            0..=44 => json!({"t":"nam_set","k":ik.choose(rng).unwrap(),"w":rng.gen_range(2..9),"en":rng.gen_bool(0.7),"upd":rng.gen_bool(0.5)}),
+            45..=59 => json!({"t":"nam_del","k":ik.choose(rng).unwrap()}),
+            60..=89 => json!({"t":"cch_set","k":cak.choose(rng).unwrap(),"v":contents.choose(rng).unwrap(),"m":modes.choose(rng).unwrap()}),
+            _ => json!({"t":"cch_del","k":cak.choose(rng).unwrap()}),
+        };
+    }
     match rng.gen_range(0..100) {
         0..=39 => {
             *hid += 1;
-            json!({"t":"cfg_set","k":ck.choose(rng).unwrap(),"v":contents.choose(rng).unwrap(),"hid":*hid})
+            json!({"t":"cfg_set","k":ck.choose(rng).unwrap(),"v":contents.choose(rng).unwrap(),"hid":*hid,"ty":tys.choose(rng).unwrap(),"ds":dss.choose(rng).unwrap()})
         }
         40..=49 => json!({"t":"cfg_del","k":ck.choose(rng).unwrap()}),
         50..=57 => json!({"t":"ns_set","k":ns.choose(rng).unwrap(),"v":names.choose(rng).unwrap()}),
